@@ -194,6 +194,7 @@ func (sg *SegmentGenerator) segmentClose() (err error) {
 		curr.file.delete()
 	} else {
 		sg.playlist.addSegment(curr)
+		sg.verifPoint("rollover.listed", curr.sequenceNo)
 	}
 	return
 }
@@ -210,6 +211,7 @@ func (sg *SegmentGenerator) reapSegment(segmentStartDts int64) (err error) {
 	if err = sg.segmentOpen(segmentStartDts); err != nil {
 		return
 	}
+	sg.verifPoint("rollover.opened", sg.sequenceNo)
 
 	// segment open, flush the audio.
 	// @see: ngx_rtmp_hls_open_fragment
